@@ -13,7 +13,6 @@ TABLE = {}
 NOT_APPLICABLE = {
     'C10': 'quantifies over crash points between file-system mutations and fault sequences of whole configure/regenerate runs; a function contract relates one call\'s pre-state to its post-state and has no notion of "killed here" (DESIGN.md section 6)',
     'C13': 'two-run hyperproperty of the whole pipeline under hash randomisation; set iteration order is not an input of any function under contract (DESIGN.md section 6)',
-    'C16': 'the oracle is the behaviour of the external gcc/clang binaries; a contract on the flag tables can only restate the tables (DESIGN.md section 6)',
     'C06': 'relational property across three emitters per builtin (make / ninja / compdb) over ~6 kLOC of duck-typed builtins: a product-program obligation per builtin needs every builtin\'s rule object under the opaque-object mode; the emitter kernels that are under contract (ninja command_build, Makefile.rule / NinjaFile.build, the writers) are claimed under C03/C01/C02 instead; no relational contract was built (DESIGN.md 8.3)',
     'C18': 'universal statement over all builtins plus the behaviour of the external archive tool; no per-function contract carries it (DESIGN.md section 6)',
 }
@@ -223,4 +222,17 @@ TABLE['C15'] = {
     'level_text': 'Bounded exploration only (labelled): the real installify/InstallOutputs map each file to DESTDIR + the directory of its kind, add run-time dependencies, refuse external files and conflicting destinations, and uninstall names exactly the installed paths; the real install target puts exactly the declared files under the configured directories, rewrites the search paths of the installed program to installed library directories, the program runs, and uninstall leaves nothing. Nothing is proved for this property.',
     'level_note': 'bounded stand-in only; contract-based proof did not reach this layer (stated in DESIGN.md 8.3)',
     'technique': 'bounded runtime contracts on the real functions (stand-in; no deductive obligations)',
+}
+
+
+TABLE['C16'] = {
+    'modules': ['contracts.ccflags'],
+    'level': 'exploration',
+    'explanation': 'the oracle of this property is the behaviour of the external compiler: a deductive contract on the flag tables could only restate them, so nothing is proved. The check is a bounded runtime contract on the real pipeline: for 18 semantic-option cases (define with and without value and with shell-special text, std c99/c11, include_dir with a blank, warning all/extra/error/disable, debug, optimize disable/size/speed/linktime and size+linktime, pic, pthread), each placed per target and as a global option, a generated project is configured by the tree under test and built with the installed cc through GNU make; the flags must be accepted and the program must show the documented effect through predefined macros, its exit status, a .debug_info section or a failing build.',
+    'assumptions': ['the installed cc (gcc) is the detected compiler; its predefined macros (__OPTIMIZE__, __OPTIMIZE_SIZE__, _REENTRANT, __PIC__, __STDC_VERSION__) report the effect of the corresponding flags'],
+    'trusted_base': [],
+    'not_covered': ['languages other than C; compilers other than the installed gcc (clang, MSVC tables)', 'sanitize, static, entry_point, lib / lib_dir, pch, sys include', 'pairwise combinations, toolchain files, CFLAGS-style variables'],
+    'level_text': 'Bounded exploration only (labelled): 36 generated projects built with the real compiler. Nothing is proved for this property.',
+    'level_note': 'bounded stand-in only; the contract technique does not apply to an external oracle (DESIGN.md section 6 and 8.3). One genuine defect found and repaired (-Osize).',
+    'technique': 'bounded runtime contracts on the real pipeline and compiler (stand-in; no deductive obligations)',
 }
